@@ -1923,6 +1923,8 @@ def sroa(j, only_paths=None):
             pl = _borrowed_place(b, r)
             if pl is None or not pl['p'] or pl['p'][0].get('k') != 'deref' or not (1 <= pl['l'] <= argc):
                 continue
+            if any(st.get('k') == 'assign' and st['place']['l'] == pl['l'] and not st['place']['p'] for blk in live for st in blk['stmts']):
+                continue      # the parameter itself is re-assigned: `*param` is not one place
             if any(e.get('k') not in ('deref', 'field') for e in pl['p']) or sum(1 for e in pl['p'] if e.get('k') == 'deref') != 1:
                 continue
             subst[r] = pl
@@ -1990,8 +1992,14 @@ def forward_aggregate_reads(j):
                     else:
                         return None
                 return out
+            mut_borrowed = set()
+            for blk in live:
+                for st in blk['stmts']:
+                    if st.get('k') == 'assign' and st['rv'].get('k') in ('ref', 'rawptr') and st['rv'].get('mut') not in ('shared', 'fake', 'Const'):
+                        mut_borrowed.add(st['rv']['place']['l'])
             def single_def(l):
-                return l > argc and len(defs.get(l, [])) == 1
+                # ... and never mutably borrowed: a store through `&mut l` is a definition this count does not see
+                return l > argc and len(defs.get(l, [])) == 1 and l not in mut_borrowed
             def resolve(pl, depth=0):
                 """operand equal to a read of place pl, or None"""
                 proj = pl['p']
@@ -2117,8 +2125,29 @@ def split_tails(j, max_clones=24):
                 if st.get('k') == 'assign' and not st['place']['p']:
                     rv = st['rv']
                     defs.setdefault(st['place']['l'], []).append((i, rv))
-        cands = [x for x, ds in defs.items() if x != 0 and len(ds) >= 2 and all(rv['k'] == 'agg' and rv.get('is_enum') for (_i, rv) in ds)
-                 and len({(rv.get('variant'), json.dumps(rv.get('ops'), sort_keys=True)) for (_i, rv) in ds}) >= 2]
+        def sources(x, depth=0, seen=()):
+            """enum aggregates that can be the value of local x, through whole moves; None if anything else defines it"""
+            if depth > 4 or x in seen:
+                return None
+            out_ = []
+            for (_i, rv) in defs.get(x, []):
+                if rv['k'] == 'agg' and rv.get('is_enum'):
+                    out_.append((rv.get('variant'), json.dumps(rv.get('ops'), sort_keys=True)))
+                elif rv['k'] == 'use' and rv['op'].get('k') in ('copy', 'move') and not rv['op']['place']['p']:
+                    sub = sources(rv['op']['place']['l'], depth + 1, seen + (x,))
+                    if sub is None:
+                        return None
+                    out_.extend(sub)
+                else:
+                    return None
+            return out_ if defs.get(x) else None
+        cands = []
+        for x in defs:
+            if x == 0:
+                continue
+            src = sources(x)
+            if src is not None and len(set(src)) >= 2:
+                cands.append(x)
         if not cands:
             continue
         def preds_of():
